@@ -173,6 +173,42 @@ func genC07(t *Tape) *Plan {
 			}
 		}
 	}
+	if len(g.plan.Ops) == 0 && t.Draw("c07.slowreader", 4) == 0 {
+		// slow-reader skeleton: a subscriber stops reading, deliveries pile up behind the broker's blocked write, the
+		// subscriber sends requests of its own (PINGREQ, SUBSCRIBE, QoS 1 PUBLISH), then reads again. Each request is
+		// owed its answer once the connection drains; what the write loop and the reader do then is the tape's choice.
+		cfg.MaxQos = 2
+		g.Connect(0)
+		si := g.Subscribe(0)
+		g.plan.Ops[si].Pkt.Filters = []refcodec.Filter{{Filter: "t/#", Opts: byte(t.Draw("c07.slow.subqos", 2))}}
+		g.Connect(1)
+		g.add(Op{Kind: "stall", Slot: 0})
+		for i, np := 0, 2+t.Draw("c07.slow.burst", 3); i < np; i++ {
+			pi := g.Publish(1)
+			g.plan.Ops[pi].Pkt.Topic = "t"
+		}
+		for i, nr := 0, 1+t.Draw("c07.slow.requests", 2); i < nr; i++ {
+			switch t.Draw("c07.slow.kind", 3) {
+			case 0:
+				g.add(Op{Kind: "ping", Slot: 0, Pkt: &refcodec.Packet{Type: refcodec.PINGREQ}})
+			case 1:
+				s2 := g.Subscribe(0)
+				g.plan.Ops[s2].Pkt.Filters = []refcodec.Filter{{Filter: "t/a", Opts: 0}}
+			default:
+				pi := g.Publish(0)
+				p := g.plan.Ops[pi].Pkt
+				p.Topic, p.Qos = "u", 1
+				if p.PacketID == 0 {
+					p.PacketID = g.pid(0)
+				}
+			}
+		}
+		g.add(Op{Kind: "unstall", Slot: 0})
+		g.add(Op{Kind: "advance", Ms: 10})
+		for i := range g.plan.Ops {
+			g.plan.Ops[i].Concurrent = false
+		}
+	}
 	n := 6 + t.Draw("c07.len", 11)
 	for len(g.plan.Ops) < n {
 		switch t.Draw("c07.special", 8) {
